@@ -93,3 +93,9 @@ func init() {
 		Quick:    tierCfg{Shards: 16, Checks: 120, Procs: mixedProcs, TimeoutS: 900, ReplayRepeat: 10},
 		Thorough: tierCfg{Shards: 16, Checks: 3000, Procs: mixedProcs, TimeoutS: 5400, ReplayRepeat: 50}}
 }
+
+func init() {
+	specs["C05"] = propSpec{Level: "exploration",
+		Quick:    tierCfg{Shards: 16, Checks: 150, Procs: mixedProcs, TimeoutS: 900, ReplayRepeat: 30},
+		Thorough: tierCfg{Shards: 16, Checks: 3000, Procs: mixedProcs, TimeoutS: 5400, ReplayRepeat: 100}}
+}
